@@ -1,8 +1,8 @@
 (* C06 - Values are bound to signals by header name; every row is a complete vector.
    SPEC: ByNameSpec.  MODEL: Bind.build_indices + Iter.generate_*_entries / check_changed_entries.
    Property theorems only; proofs in proofs/ByNameProof.v. *)
-From DTR Require Import Prelude I64 Ast Parser Bind Eval Stmt Iter ByNameSpec.
-From DTR.proofs Require Import ByNameProof.
+From DTR Require Import Prelude I64 Ast FramedMap Lexer Parser Bind Eval Stmt Iter WfSpec ByNameSpec.
+From DTR.proofs Require Import ByNameProof IterLogProof RunRefineE IterLogProofE WidthProof VectorProof.
 Local Open Scope nat_scope.
 
 Theorem C06_inputs_by_name : forall p sigs0 tc entries changed l,
@@ -59,6 +59,84 @@ Theorem C06_omitted_never_changed : forall hdr entries changed sigs l,
     ie_changed e = false /\ default_value (ie_sig e) = Some (ie_val e).
 Proof. exact ByNameProof.C06_omitted_never_changed. Qed.
 
+(* RUN LEVEL, through error items: every vector handed to the driver - the constructor's, every row's, the calls behind error items - has exactly one entry per input-capable signal, in signal-list order *)
+Theorem C06_every_vector_is_complete :
+  forall (G : gen) (DE : Type) (D : driver DE) (w_default : bool) (p : parsed) 
+  (sigs0 : list signal) (tc : testcase) (fuel n : nat) (st0 : istate) (items : list (item_view DE))
+  (st' : istate),
+  with_signals p sigs0 = Ok tc ->
+  try_new DE D tc = NewOk DE st0 ->
+  collect_e G DE D w_default tc fuel n st0 = (items, Some st') ->
+  Forall (fun c : call => map ie_sig (snd c) = filter is_input (tc_signals tc)) (i_log st').
+Proof. exact every_vector_complete. Qed.
+
+(* every yielded row that has outputs has exactly one per output-capable or declared signal, in signal-list order *)
+Theorem C06_every_checked_row_is_complete :
+  forall (G : gen) (DE : Type) (D : driver DE) (w_default : bool) (p : parsed) 
+  (sigs0 : list signal) (tc : testcase) (fuel n : nat) (st0 : istate),
+  with_signals p sigs0 = Ok tc ->
+  try_new DE D tc = NewOk DE st0 ->
+  Forall
+  (fun item : item_view DE =>
+  match item with
+  | VRow r =>
+  dr_outputs r <> [] ->
+  map or_sig (dr_outputs r) =
+  filter (fun s : signal => is_output s || is_virtual s) (tc_signals tc)
+  | _ => True
+  end) (fst (collect_e G DE D w_default tc fuel n st0)).
+Proof. exact every_checked_row_complete. Qed.
+
+(* for ANY two consecutive calls of the driver's log, an entry that is not flagged as changed carries the value that signal had in the previous vector handed to the driver - whatever became of that call (a row, a failed call, a refused answer) *)
+Theorem C06_unflagged_means_unchanged :
+  forall (G : gen) (DE : Type) (D : driver DE) (w_default : bool) (p : parsed) 
+  (sigs0 : list signal) (tc : testcase) (fuel n : nat) (st0 : istate) (items : list (item_view DE))
+  (st' : istate),
+  with_signals p sigs0 = Ok tc ->
+  try_new DE D tc = NewOk DE st0 ->
+  collect_e G DE D w_default tc fuel n st0 = (items, Some st') ->
+  forall (l1 : list call) (c1 c2 : call) (l2 : list call),
+  i_log st' = l1 ++ c1 :: c2 :: l2 ->
+  Forall2
+  (fun e1 e2 : in_entry => ie_sig e1 = ie_sig e2 /\ (ie_changed e2 = false -> ie_val e1 = ie_val e2))
+  (snd c1) (snd c2).
+Proof. exact unflagged_means_unchanged. Qed.
+
+(* a signal the header omits is unflagged and at its default in every call *)
+Theorem C06_omitted_never_flagged_in_any_call :
+  forall (G : gen) (DE : Type) (D : driver DE) (w_default : bool) (p : parsed) 
+  (sigs0 : list signal) (tc : testcase) (fuel n : nat) (st0 : istate) (items : list (item_view DE))
+  (st' : istate),
+  with_signals p sigs0 = Ok tc ->
+  try_new DE D tc = NewOk DE st0 ->
+  collect_e G DE D w_default tc fuel n st0 = (items, Some st') ->
+  forall (c : call) (e : in_entry),
+  In c (i_log st') ->
+  In e (snd c) ->
+  column_named (p_signals p) (sname (ie_sig e)) = None ->
+  ie_changed e = false /\ default_value (ie_sig e) = Some (ie_val e).
+Proof. exact omitted_never_flagged. Qed.
+
+(* the first call carries the defaults *)
+Theorem C06_log_starts_with_the_defaults :
+  forall (G : gen) (DE : Type) (D : driver DE) (w_default : bool) (p : parsed) 
+  (sigs0 : list signal) (tc : testcase) (fuel n : nat) (st0 : istate) (items : list (item_view DE))
+  (st' : istate),
+  with_signals p sigs0 = Ok tc ->
+  try_new DE D tc = NewOk DE st0 ->
+  collect_e G DE D w_default tc fuel n st0 = (items, Some st') ->
+  exists (ins : list in_entry) (calls : list (callkind * list in_entry)),
+  i_log st' = (RW, ins) :: calls /\
+  generate_default_input_entries tc = Ok ins /\
+  defaults_spec (tc_signals tc) = Some ins /\
+  Forall is_default_entry ins /\ (length calls <= length items)%nat.
+Proof. exact log_starts_with_defaults. Qed.
+
+
 Check C06_inputs_by_name.
 Print Assumptions C06_inputs_by_name.
 Print Assumptions C06_changed_sound.
+Print Assumptions C06_every_vector_is_complete.
+Print Assumptions C06_every_checked_row_is_complete.
+Print Assumptions C06_unflagged_means_unchanged.
+Print Assumptions C06_omitted_never_flagged_in_any_call.
